@@ -616,6 +616,121 @@ static void assign_slice_case(Ctx& ctx, const Raw& d, const std::vector<std::vec
     if (cnt >= 2) ctx.nontrivial();
 }
 
+// ------------------------------------------------------------------------------------------------ array = slice (materialisation by assignment)
+// x = x.slice(...) : the destination ARRAY is assigned from a slice of itself (mutable view and view through a const
+// reference), twice in a row, from a slice of a distinct array of another length (x shrinks / grows), and from expressions
+// whose operands are materialised slices of the destination.  Oracle: Python's selection applied to a copy of the old
+// contents; the source array of the distinct-array forms and a bystander array must stay bit-identical.
+template<class T>
+static bool arr_is(const base_array<T>& x, const std::vector<T>& want) {
+    return x.size() == (int)want.size() && (want.empty() || std::memcmp(x.data(), want.data(), want.size() * sizeof(T)) == 0);
+}
+template<class T>
+static std::string show_arr(const base_array<T>& x) {
+    return fmt("(%d) ", x.size()) + showv(x.to_vec());
+}
+template<class T>
+static std::vector<T> pick(const std::vector<T>& v, const std::vector<int>& idx) {
+    std::vector<T> r;
+    r.reserve(idx.size());
+    for (int i : idx) r.push_back(v[(size_t)i]);
+    return r;
+}
+static real_t twice(const real_t& v) { return v * 2.0; }
+static cmplx_t twice(const cmplx_t& v) { return cmplx_t(v.re * 2.0, v.im * 2.0); }
+static real_t plus(const real_t& a, const real_t& b) { return a + b; }
+static cmplx_t plus(const cmplx_t& a, const cmplx_t& b) { return cmplx_t(a.re + b.re, a.im + b.im); }
+
+template<class T>
+static void self_assign_case(Ctx& ctx, int n, int i1, int i2, int step, const std::vector<int>& idx, bool big) {
+    Rep R(ctx);
+    const int cnt = (int)idx.size();
+    std::vector<T> x0((size_t)n);
+    for (int i = 0; i < n; ++i) x0[(size_t)i] = El<T>::tag(i);
+    const std::vector<T> want = pick(x0, idx);
+    const base_array<T> z0(rhs_values<T>(5, 300));   // bystander
+    base_array<T> z = z0;
+    long forms = 0;
+    auto run = [&](const char* form, const std::vector<T>& expect, auto body) {
+        ++forms;
+        base_array<T> x(x0);
+        try {
+            body(x);
+            if (!arr_is(x, expect)) R.fail("array=slice", std::string(form) + ": x becomes " + show_arr(x), fmt("(%zu) ", expect.size()) + showv(expect), P().kv("form", form).kv("cnt", cnt));
+        } catch (const std::exception& e) {
+            R.fail("array=slice", std::string(form) + " throws: " + e.what(), fmt("(%zu) ", expect.size()) + showv(expect), P().kv("form", form).kv("cnt", cnt));
+        }
+    };
+    run("x = x.slice", want, [&](base_array<T>& x) { x = x.slice(i1, i2, step); });
+    run("x = cx.slice", want, [&](base_array<T>& x) {
+        const base_array<T>& cx = x;
+        x = cx.slice(i1, i2, step);
+    });
+    {   // twice in a row (second selection on the new length; only if the statement allows no exception there)
+        const Sel o2 = oracle(cnt, i1, i2, step);
+        if (!o2.listed) {
+            const std::vector<T> want2 = pick(want, o2.idx);
+            run("x = x.slice; x = x.slice", want2, [&](base_array<T>& x) {
+                x = x.slice(i1, i2, step);
+                x = x.slice(i1, i2, step);
+            });
+            run("x = cx.slice; x = cx.slice", want2, [&](base_array<T>& x) {
+                const base_array<T>& cx = x;
+                x = cx.slice(i1, i2, step);
+                x = cx.slice(i1, i2, step);
+            });
+            R.note("self.twice");
+        }
+    }
+    if (!big) run("x = *x.slice", want, [&](base_array<T>& x) { x = *x.slice(i1, i2, step); });
+    // from a slice of a distinct array, destination of another length (shrinks / grows)
+    {
+        const std::vector<int> ms = big ? std::vector<int>{0, n + 3} : std::vector<int>{0, 1, std::max(0, n - 2), n, n + 3};
+        for (int m : ms) {
+            base_array<T> y(x0);
+            ++forms;
+            for (int kind = 0; kind < 2; ++kind) {
+                base_array<T> x(rhs_values<T>(m, 500));
+                try {
+                    const base_array<T>& cy = y;
+                    if (kind) x = cy.slice(i1, i2, step);
+                    else x = y.slice(i1, i2, step);
+                    if (!arr_is(x, want))
+                        R.fail("array=slice", fmt("x(%d) = %s.slice: x becomes ", m, kind ? "cy" : "y") + show_arr(x), fmt("(%d) ", cnt) + showv(want), P().kv("form", "x = y.slice").kv("cnt", cnt).kv("m", m));
+                } catch (const std::exception& e) {
+                    R.fail("array=slice", std::string("x = y.slice throws: ") + e.what(), showv(want), P().kv("form", "x = y.slice").kv("cnt", cnt).kv("m", m));
+                }
+            }
+            if (!arr_is(y, x0)) R.fail("array=slice", "x = y.slice modified the source array y: " + show_arr(y), showv(x0), P().kv("form", "x = y.slice").kv("m", m));
+        }
+    }
+    // expressions whose operands are materialised slices of the destination
+    {
+        std::vector<T> w2(want);
+        for (T& v : w2) v = twice(v);
+        run("x = array(x.slice) * 2", w2, [&](base_array<T>& x) { x = base_array<T>(x.slice(i1, i2, step)) * real_t(2); });
+        run("x = array(x.slice) + array(x.slice)", w2, [&](base_array<T>& x) { x = base_array<T>(x.slice(i1, i2, step)) + base_array<T>(x.slice(i1, i2, step)); });
+        // a second, shifted selection of equal count where one exists
+        const long r1 = (i1 < 0 ? i1 + n : i1) + 1, r2 = (i2 < 0 ? i2 + n : i2) + 1;
+        const Sel os = oracle(n, r1, r2, step);
+        if (!os.listed && (int)os.idx.size() == cnt) {
+            std::vector<T> ws = pick(x0, os.idx);
+            for (size_t k = 0; k < ws.size(); ++k) ws[k] = plus(want[k], ws[k]);
+            run("x = array(x.slice) + array(x.slice shifted)", ws, [&](base_array<T>& x) {
+                const base_array<T>& cx = x;
+                x = base_array<T>(x.slice(i1, i2, step)) + base_array<T>(cx.slice((int)r1, (int)r2, step));
+            });
+            R.note("self.shifted-sum");
+        }
+    }
+    if (!arr_is(z, z0.to_vec())) R.fail("array=slice", "a bystander array was modified", "unchanged");
+    R.note(cnt == 0 ? "self.empty" : (step == 1 ? "self.unit" : (step > 0 ? "self.pos" : (cnt >= 3 ? "self.neg(count>=3)" : "self.neg(count<3)"))));
+    if (!g_asan) ctx.transitions += (uint64_t)forms;
+    ctx.evaluations += (uint64_t)forms - 1;
+    ctx.checks[ctx.cur_check].evals += (uint64_t)forms - 1;
+    if (cnt >= 2) ctx.nontrivial();
+}
+
 // ------------------------------------------------------------------------------------------------ E2: one array
 static const char* overlap_kind(const std::vector<int>& d, const std::vector<int>& s) {
     if (d.empty()) return "empty";
@@ -956,6 +1071,30 @@ static void run_type(Ctx& ctx, int tcode, bool Th) {
                 if (!ctx.take("assign.slice", P().kv("T", tn).kv("n", n).kv("i1", d.i1).kv("i2", d.i2).kv("step", d.step))) continue;
                 assign_slice_case<T>(ctx, d, srcs, ys);
             }
+    }
+    // -------- array = slice of itself: every valid tuple of the read box, n <= 8 (thorough 12, steps -8..8), and big reversed cases
+    {
+        const int NS = Th ? (g_asan ? 10 : 12) : 8;
+        if (ctx.wants("self.assign"))
+            for (int n = 1; n <= NS; ++n)
+                for (const Raw& d : valid_slices(n, 3, Th ? 8 : 5)) {
+                    if (!ctx.take("self.assign", P().kv("T", tn).kv("n", n).kv("i1", d.i1).kv("i2", d.i2).kv("step", d.step).kv("cnt", (long long)d.idx.size()))) continue;
+                    self_assign_case<T>(ctx, n, d.i1, d.i2, d.step, d.idx, false);
+                }
+        std::vector<int> bigs = {70000};
+        if (Th) bigs.push_back(200000);
+        for (int n : bigs) {
+            const int tup[][3] = {{n - 1, 0, -1}, {-1, -n, -1}, {n - 1, 0, -7}, {n - 1, n / 2, -1}, {n - 1, 0, -65537}, {n - 2, 1, -2}, {1, n, 3}, {0, n, 1}, {n / 2, n, 1}, {0, n, 65537}};
+            for (auto& t : tup) {
+                if (!ctx.take("self.assign.big", P().kv("T", tn).kv("n", n).kv("i1", t[0]).kv("i2", t[1]).kv("step", t[2]))) continue;
+                const Sel o = oracle(n, t[0], t[1], t[2]);
+                if (o.listed) {
+                    ctx.note("self.big.listed-skipped");
+                    continue;
+                }
+                self_assign_case<T>(ctx, n, t[0], t[1], t[2], o.idx, true);
+            }
+        }
     }
     // -------- E2: pairs on one array, closure over contents
     const int NP = g_asan ? (Th ? 8 : 5) : (Th ? 10 : 6);
